@@ -342,7 +342,45 @@ def _mag(r, exact4):
     return v * r.choice([1, -1])
 
 
+# printer -> parser on term lists with numbers far below 1 (pinned; exact comparison, no tolerance, all reals): what is printed
+# must parse, and mean the constraints with every number rounded to four significant digits (fix 4f1096e)
+PINNED_PRINTER = [
+    [[{"x": 1.0}, 6e-9], [{"x": -1.0}, 6e-9]],
+    [[{"x": 1e-9, "y": 1.0}, 1.0]],
+    [[{"x": 6e-9}, 1.0], [{"x": -3e-9}, 1.0]],
+    [[{"x": 1.0, "y": -2.5e-9}, 3e-10], [{"x": -1.0, "y": 2.5e-9}, -3e-10]],
+    [[{"x": 2.0}, 4e-9], [{"x": -2.0}, -1e-9]],
+    [[{"x": 1.23456e-7, "y": -1.0}, 0.0], [{"x": -1.23456e-7, "y": 1.0}, 0.0]],
+    [[{"x": 5e-5}, 1.0], [{"x": -5.001e-5}, 1.0]],
+]
+
+
+def c10_printer_eval(p):
+    from pacti.terms.polyhedra.serializer import polyhedral_termlist_from_string
+
+    out = {"case_key": json.dumps(p, sort_keys=True), "stats": {"printer": 1}, "nontrivial": True, "sample": None}
+    tl = tl_from_data(p["terms"])
+    try:
+        strings = tl.to_str_list()
+        out["sample"] = {"mode": "printer", "terms": p["terms"], "strings": strings}
+        back = []
+        for st in strings:
+            back += list(polyhedral_termlist_from_string(st))
+        back = type(tl)(back)
+        ref = tl_from_data([[{k: _round4(v) for k, v in t[0].items()}, _round4(t[1])] for t in p["terms"]])
+        for hyp, con, what in [(back, ref, "the printed strings mean less than the rounded constraints"), (ref, back, "the printed strings mean more than the rounded constraints")]:
+            m = implies_exact([hyp], con, tol=0, box=False)
+            if m not in (None, "unknown"):
+                out["violation"] = _viol("C10", "printer", "meaning", "%s: %s (point %s)" % (what, strings, m), p, "c10_printer_eval")
+                break
+    except Exception as e:
+        out["violation"] = _viol("C10", "printer", "exception:" + type(e).__name__, "printing and parsing %s raised %s: %s" % (p["terms"], type(e).__name__, str(e)[:160]), p, "c10_printer_eval")
+    return out
+
+
 def c10_build(seed, tier):
+    if seed % 1000003 < len(PINNED_PRINTER):
+        return {"op": "printer", "terms": PINNED_PRINTER[seed % 1000003]}
     g = Gen(seed)
     r = g.r
     exact4 = r.random() < 0.6
@@ -379,6 +417,8 @@ def _round4(x):
 
 
 def c10_eval(p):
+    if p.get("op") == "printer":
+        return c10_printer_eval(p)
     from pacti.contracts import PolyhedralIoContract
     from pacti.utils.fileio import read_contracts_from_file, write_contracts_to_file
 
@@ -1061,7 +1101,7 @@ FAMILIES = {
 }
 RULES = {
     "c09_case": "expression trees up to depth 3 over 4 variables (numbers, variables, coefficient*variable with and without '*', parenthesised sums with optional factor, absolute values with optional factor, chains of 3 sides, equalities), rendered with random spacing and number spellings (integers, decimals with and without leading zero, exponents with +, - or no sign, e or E, leading zeros); equivalence of parsed constraints and written relation decided by z3 for all real points; 15 malformed strings; parse twice",
-    "c10_case": "contracts with coefficient/constant magnitudes 1e-4..1e6 (4-significant-digit decimals and arbitrary floats), opposite-term pairs with equal / negated / unrelated constants at every position, constraints without variables; machine dict, machine file, strings, human file; meaning compared by z3 with every number rounded to 4 significant digits for the human forms",
+    "c10_case": "contracts with coefficient/constant magnitudes 1e-4..1e6 (4-significant-digit decimals and arbitrary floats), opposite-term pairs with equal / negated / unrelated constants at every position, constraints without variables; machine dict, machine file, strings, human file; meaning compared by z3 with every number rounded to 4 significant digits for the human forms; pinned printer-parser witnesses with numbers of 1e-10..1e-4 (exact comparison)",
     "c13_case": "operation sequences (12 quick / 30 thorough) drawn from %s over a shared pool that results are fed back into (every fourth sequence starts from a pool of very small contracts: no assumptions, at most one guarantee); deep snapshot of operands and argument lists before/after, module tables, post-hoc mutation of results, immediate repetition, and replay of every step in a fresh interpreter" % OPS,
     "c14_case": "EXHAUSTIVE: every single-field deletion and every replacement by one of %d wrong-kind values of a valid contract dictionary in machine and human representation, through from_dict / validate+from_strings and through the file reader; plus file-entry and file-top-level faults" % len(WRONG),
     "c14_shapes_case": "adversarial shapes (empty lists, single variable, unbounded LPs, more eliminated variables than context rows, cancelling terms) through elimination, simplify, refines, is_empty, optimize with every single tactic",
